@@ -779,6 +779,13 @@ static void final_exit_checks() {
     g_big_nonarena = big;
     if (big != 0) vf_trip("os-region-not-unmapped", "C09,C11", "every block was freed and the survivors force-collected, but %zu OS segments are still mapped (abandoned memory leaked)", big);
   }
+  // the sub-processes are empty now (no thread, no abandoned segment): deleting them must be accepted, and the default sub-process must go on working
+  if (C.subprocs > 1) {
+    vf_cur_what = "mi_subproc_delete";
+    mi_subproc_delete(g_subproc[0]); mi_subproc_delete(g_subproc[1]); mi_subproc_delete(mi_subproc_main() /* NULL: ignored */);
+    void* p = mi_malloc(4000); if (p == nullptr) vf_trip("wellformed-refused", "C06", "mi_malloc failed after the sub-processes were deleted"); memset(p, 0x5d, 4000); mi_free(p);
+    mi_collect(true);
+  }
 }
 
 int main(int argc, char** argv) {
